@@ -57,6 +57,12 @@ def run(p, report, tier):
         # used in another)
         for f in meths:
             it.run_entity(ci, f, rounds=1)
+        # protocol hooks that public methods trigger implicitly (check_is_fitted -> __sklearn_is_fitted__) may
+        # create aliases too (`self.estimator_ = self.estimator` for a pre-fitted estimator)
+        for hook in ("__sklearn_is_fitted__",):
+            hf = p.find_method(ci, hook)
+            if hf is not None and not is_abstract(hf):
+                it.run_entity(ci, hf, rounds=1)
         for f in meths:
             it.run_entity(ci, f, rounds=2)
             n_ent += 1
